@@ -33,20 +33,28 @@
    (the recommendation of service.Interface) does not admit it.
 
    close(done), tick.Stop(), the abort of a start sleep and the exit of the
-   loop are not visible: TLC places them (silent steps).  At an Obs no step of
+   loop are not visible: TLC places them (silent steps).  The receive of a
+   tick (TakeTick) is recorded a few instructions later (SleepBegin /
+   CtxEnter): while Shutdown is between close(done) and tick.Stop() TLC may
+   place the receive itself and explain the record later (variable owed).  At an Obs no step of
    the worker's goroutines may be enabled: what the code could do it has
    done.                                                                     *)
 EXTENDS RefreshWorker
 
-VARIABLE l
+VARIABLES l,
+          owed    \* the loop has taken a tick (the receive of its select) and has not yet recorded the event of that
+                  \* step: SleepBegin is recorded when the start-sleep timer is made, CtxEnter on entry to cfg.Context,
+                  \* both some instructions after the receive -- a Shutdown goroutine running at the same time can stop
+                  \* the ticker, return and be recorded in between (the loop is not joined)
 Trace == ndJsonDeserialize("trace.ndjson")
 E == Trace[l]
-tvars == <<vars, l>>
+tvars == <<vars, l, owed>>
+Keep == UNCHANGED owed
 
 Mark == TLCSet(1, IF l + 1 > TLCGet(1) THEN l + 1 ELSE TLCGet(1))
 Consume(e) == l <= Len(Trace) /\ E.ev = e /\ l' = l + 1
 
-TraceInit == Init /\ l = 1 /\ TLCSet(1, 1)
+TraceInit == Init /\ l = 1 /\ owed = FALSE /\ TLCSet(1, 1)
 
 TReset == /\ Consume("Reset") /\ E.tickerok
           /\ ros' = E.ros /\ rnd' = E.rnd
@@ -55,57 +63,70 @@ TReset == /\ Consume("Reset") /\ E.tickerok
           /\ sd' = "none" /\ sdctx' = "none" /\ fctx' = "none" /\ finerr' = FALSE
           /\ nshut' = 0 /\ nret' = 0 /\ lastres' = "none" /\ nfin' = 0 /\ nper' = 0 /\ late' = 0
           /\ ranAtRet' = FALSE /\ seenDone' = FALSE /\ nt' = 0 /\ hist' = hist
+          /\ owed' = FALSE
           /\ Mark
 
-TStart == Consume("Start") /\ Start /\ Mark
-TTick == Consume("Tick") /\ Tick /\ E.sent = (~pend /\ ~tstop) /\ Mark
-TSleepBegin == Consume("SleepBegin") /\ rnd /\ TakeTick /\ E.durok /\ Mark
-TTimerFire == Consume("TimerFire") /\ TimerFire /\ Mark
-TCtxEnter == Consume("CtxEnter") /\ ((~rnd /\ TakeTick) \/ SleepDone) /\ Mark
+TStart == Consume("Start") /\ Start /\ Keep /\ Mark
+TTick == Consume("Tick") /\ Tick /\ E.sent = (~pend /\ ~tstop) /\ Keep /\ Mark
+\* the event of a tick taken: together with the step, or owed by a step that TLC has placed earlier
+TSleepBegin == /\ Consume("SleepBegin") /\ rnd /\ E.durok
+               /\ \/ ~owed /\ TakeTick
+                  \/ owed /\ loop = "sleep" /\ UNCHANGED vars
+               /\ owed' = FALSE /\ Mark
+TTimerFire == Consume("TimerFire") /\ ~owed /\ TimerFire /\ Keep /\ Mark
+TCtxEnter == /\ Consume("CtxEnter")
+             /\ \/ ~owed /\ ((~rnd /\ TakeTick) \/ SleepDone)
+                \/ owed /\ ~rnd /\ loop = "ctx" /\ UNCHANGED vars
+             /\ owed' = FALSE /\ Mark
 
 TRefreshBegin ==
     /\ Consume("RefreshBegin")
     /\ E.ctxlive
-    /\ \/ E.which = "periodic" /\ RefreshBegin /\ E.ctx = "cfg" /\ E.live = live' /\ E.running = running'
+    /\ \/ E.which = "periodic" /\ ~owed /\ RefreshBegin /\ E.ctx = "cfg" /\ E.live = live' /\ E.running = running'
        \/ E.which = "final" /\ FinalRefreshBegin /\ E.ctx = "shutdown"
-    /\ Mark
+    /\ Keep /\ Mark
 
 TRefreshEnd ==
     /\ Consume("RefreshEnd") /\ E.out \in Outs
     \* the refresher's context is done exactly when the harness let the context it belongs to expire
     /\ \/ E.which = "periodic" /\ RefreshEnd(E.out) /\ E.ctxdone = (E.out = "timeout")
        \/ E.which = "final" /\ FinalRefreshEnd(E.out) /\ E.ctxdone = (sdctx = "done")
-    /\ Mark
+    /\ Keep /\ Mark
 
-TShutdownCall == Consume("ShutdownCall") /\ E.ctx \in CtxKinds /\ ShutdownCall(E.ctx) /\ Mark
-TCtxExpire == Consume("CtxExpire") /\ CtxExpire /\ Mark
+TShutdownCall == Consume("ShutdownCall") /\ E.ctx \in CtxKinds /\ ShutdownCall(E.ctx) /\ Keep /\ Mark
+TCtxExpire == Consume("CtxExpire") /\ CtxExpire /\ Keep /\ Mark
 TShutdownRet ==
     /\ Consume("ShutdownRet")
     /\ \/ E.res = "panic" /\ ShutdownPanic
        \/ E.res # "panic" /\ ShutdownRet /\ E.res = lastres' /\ (E.res = "err" => E.wraps)
     \* the contract of service.Interface (Joins = TRUE) would not let Shutdown return here: reported, not judged
     /\ IF loop \in {"ctx", "refr"} \/ running > 0 THEN PrintT(<<"NOJOIN", l, loop>>) ELSE TRUE
-    /\ Mark
+    /\ Keep /\ Mark
 
 \* nothing the worker's goroutines could still do by themselves
 Quiescent == /\ ~(loop = "idle" /\ (pend \/ done))
              /\ ~(loop = "sleep" /\ (tfired \/ done))
              /\ sd \in {"none", "final"}
 
-TObs == /\ Consume("Obs") /\ Quiescent
+TObs == /\ Consume("Obs") /\ Quiescent /\ ~owed
         /\ E.loop = loop /\ E.sd = sd
         /\ E.pend = pend /\ E.tstop = tstop /\ E.done = done
         /\ E.live = live /\ E.running = running
         /\ E.ctxwait = (IF loop = "ctx" THEN 1 ELSE 0) /\ E.perwait = running
-        /\ UNCHANGED vars /\ Mark
+        /\ UNCHANGED vars /\ Keep /\ Mark
 
-TEnd == Consume("End") /\ sd = "none" /\ running = 0 /\ UNCHANGED vars /\ Mark
-TAbort == Consume("Abort") /\ UNCHANGED vars /\ Mark
+TEnd == Consume("End") /\ sd = "none" /\ running = 0 /\ ~owed /\ UNCHANGED vars /\ Keep /\ Mark
+TAbort == Consume("Abort") /\ UNCHANGED vars /\ Keep /\ Mark
 
-Silent == (CloseDone \/ StopTicker \/ SleepAbort \/ LoopExit) /\ UNCHANGED l
+\* steps without an event: close(done), tick.Stop(), the abort of a start sleep, the exit of the loop ...
+Silent == (CloseDone \/ StopTicker \/ (~owed /\ SleepAbort) \/ LoopExit) /\ UNCHANGED l /\ Keep
+\* ... and the receive of a tick whose event is recorded later.  Only while Shutdown is between close(done) and
+\* tick.Stop() can another goroutine of the worker overtake the loop's record (everywhere else the harness waits
+\* for the loop to park before anything else is recorded)
+SilentTake == ~owed /\ sd = "closing" /\ TakeTick /\ owed' = TRUE /\ UNCHANGED l
 
 TraceNext == \/ TReset \/ TStart \/ TTick \/ TSleepBegin \/ TTimerFire \/ TCtxEnter \/ TRefreshBegin \/ TRefreshEnd
-             \/ TShutdownCall \/ TCtxExpire \/ TShutdownRet \/ TObs \/ TEnd \/ TAbort \/ Silent
+             \/ TShutdownCall \/ TCtxExpire \/ TShutdownRet \/ TObs \/ TEnd \/ TAbort \/ Silent \/ SilentTake
 TraceSpec == TraceInit /\ [][TraceNext]_tvars
 
 TraceAccepted ==
